@@ -18,6 +18,7 @@ type J map[string]any
 type Out struct {
 	w     *bufio.Writer
 	lines int
+	last  time.Time // last flush: lines reach the file at least once a second, so a run that is killed keeps what it found
 }
 
 func newOut(path string) *Out {
@@ -39,6 +40,10 @@ func (o *Out) emit(j J) {
 	o.w.Write(b)
 	o.w.WriteByte('\n')
 	o.lines++
+	if now := time.Now(); now.Sub(o.last) > time.Second {
+		o.w.Flush()
+		o.last = now
+	}
 }
 
 func (o *Out) close() { o.w.Flush() }
